@@ -458,8 +458,186 @@ def s_For(ctx, fr, path, st):
     return exec_for(ctx, fr, path, st)
 
 
+def _same_term(a, b):
+    if a is b:
+        return True
+    if isinstance(a, tuple) or isinstance(b, tuple):
+        return isinstance(a, tuple) and isinstance(b, tuple) and len(a) == len(b) and all(_same_term(x, y) for x, y in zip(a, b))
+    return z3.eq(a, b)
+
+
+def loop_spec_for(ctx, fr, st):
+    """Sidecar invariant of a loop of the function under verification: while loops are keyed by their ordinal
+    (int, source order from 1), for loops by "for<ordinal>"."""
+    task = ctx.current
+    if task is None or fr.func is None or fr.func.target != task.target or ctx.spec_mode:
+        return None
+    kind = ast.While if isinstance(st, ast.While) else ast.For
+    loops = sorted((n for n in ast.walk(fr.func.node) if isinstance(n, kind)), key=lambda n: (n.lineno, n.col_offset))
+    k = loops.index(st) + 1
+    return task.contract.loop_invariants.get(k if kind is ast.While else f"for{k}")
+
+
+class _LoopInv:
+    def __init__(self, ctx, fr, st, spec):
+        from .contracts import parse_ann_text
+        task = ctx.current
+        spec_mi = ctx.src.module(task.contract.spec_mod)
+        self.ctx, self.fr, self.st = ctx, fr, st
+        self.shapes = {n: parse_ann_text(ctx, a, spec_mi, fr.mi) for n, a in (spec.get("shapes") or {}).items()}
+        self.inv_node = ast.parse(spec["inv"], mode="eval").body if spec.get("inv") else None
+        self.where = f"{'while' if isinstance(st, ast.While) else 'for'} loop at line {st.lineno}"
+        self.spec_mi = spec_mi
+
+    def _frame(self):
+        # the invariant is an expression over the locals of the real function; names it does not find there
+        # (spec functions, classes) are resolved in the sidecar module
+        f = Frame(self.fr.mi, func=self.fr.func, cls=self.fr.cls, spec=True)
+        f.fallback_mi = self.spec_mi
+        return f
+
+    def check(self, p, label):
+        from .values import ann_fact
+        ctx = self.ctx
+        for n, a in self.shapes.items():
+            v = p.env.get(n)
+            if not isinstance(v, Val):
+                raise Unsupported(f"loop invariant names {n}, which is not a local value ({self.where})")
+            f = ann_fact(v.t, a, ctx.ct)
+            if f is not None:
+                ctx.oblige(p, f, "invariant", f"inv:{label}:{n}", self.where)
+        if self.inv_node is not None:
+            ctx.spec_mode += 1
+            try:
+                for q, c in ev(ctx, self._frame(), p.fork(), self.inv_node):
+                    ctx.oblige(q, ctx.truthy(q, c), "invariant", f"inv:{label}", self.where)
+            finally:
+                ctx.spec_mode -= 1
+
+    def assume(self, p):
+        ctx = self.ctx
+        if self.inv_node is None:
+            return [p]
+        ctx.spec_mode += 1
+        try:
+            outs = list(ev(ctx, self._frame(), p, self.inv_node))
+        finally:
+            ctx.spec_mode -= 1
+        res = []
+        for q, c in outs:
+            q.assume(ctx.truthy(q, c), "loop invariant")
+            if ctx.feasible(q):
+                res.append(q)
+        return res
+
+    def havoc(self, path, names):
+        from .values import ann_fact
+        ctx = self.ctx
+        for n in names:
+            if n in path.env and not isinstance(path.env[n], Val):
+                raise Unsupported(f"loop body rebinds non-value local {n} ({self.where})")
+            a = self.shapes.get(n)
+            t = ctx.newV(f"{n}_loop")
+            f = ann_fact(t, a, ctx.ct)
+            if f is not None:
+                path.assume(f, "loop invariant (shape)")
+            path.env[n] = Val(t, a, own="fresh" if a is not None and a[0] == "list" else "borrow")
+
+    def snapshot(self, path):
+        return (dict(path.heap), dict(path.fresh), dict(path.sets), dict(path.dicts))
+
+    def check_frame(self, snap, r):
+        now = (r.heap, r.fresh, r.sets, r.dicts)
+        for a0, a1 in zip(snap, now):
+            for k in a0:
+                if k not in a1 or not _same_term(a0[k], a1[k]):
+                    raise Unsupported(f"loop body changes the heap ({self.where})")
+        for k, t in r.heap.items():
+            # fields first read inside the body appear as their initial arrays: reads, not writes
+            if k not in snap[0] and not (z3.is_const(t) and t.decl().kind() == z3.Z3_OP_UNINTERPRETED):
+                raise Unsupported(f"loop body changes the heap ({self.where})")
+
+
 def s_While(ctx, fr, path, st):
-    raise Unsupported(f"while loop at line {st.lineno} (needs an invariant)")
+    """while loop by a sidecar inductive invariant (partial correctness: termination is not proved).
+
+    The contract of the function under verification lists, per while-loop ordinal (source order, from 1),
+    `{"shapes": {local: annotation}, "inv": "<bool expr over locals>"}`. Obligations: the invariant holds on
+    entry and is preserved by one arbitrary iteration; after the loop the locals the body assigns are
+    arbitrary values satisfying the invariant and the negated condition. The body may not change the heap."""
+    from .loops import assigned_names
+    spec = loop_spec_for(ctx, fr, st)
+    if spec is None or st.orelse:
+        raise Unsupported(f"while loop at line {st.lineno} (needs an invariant)")
+    li = _LoopInv(ctx, fr, st, spec)
+    li.check(path, "entry")
+    li.havoc(path, sorted(assigned_names(st.body)))
+    path.note(f"{li.where}: summarised by the sidecar invariant; termination not proved")
+    out = []
+    for path in li.assume(path):
+        snap = li.snapshot(path)
+        for p, c in ev(ctx, fr, path, st.test):
+            for q, tv in ctx.branch(p, ctx.truthy(p, c), "while"):
+                if not tv:
+                    out.append((q, Outcome("fall")))
+                    continue
+                for r, o in exec_block(ctx, fr, q, st.body):
+                    li.check_frame(snap, r)
+                    if o.kind in ("fall", "continue"):
+                        li.check(r, "preserved")        # this iteration ends here; the next one starts from the invariant
+                    elif o.kind == "break":
+                        raise Unsupported(f"break inside a loop with an invariant ({li.where})")
+                    else:
+                        out.append((r, o))
+    return out
+
+
+def exec_for_with_invariant(ctx, fr, path, st, spec):
+    """for loop over a list by a sidecar inductive invariant. The invariant may mention `_k`, the number of
+    elements already processed (so `xs[:_k]` is the processed prefix). Obligations: invariant at _k = 0,
+    preserved from _k to _k + 1 by an arbitrary iteration; after the loop it holds at _k = len."""
+    from .loops import assigned_names, iter_source, _target_names
+    li = _LoopInv(ctx, fr, st, spec)
+    out = []
+    for p, src in iter_source(ctx, fr, path, st.iter):
+        if src.unord:
+            raise Unsupported(f"invariant over an unordered iteration ({li.where})")
+        p.env["_k"] = Val(V.VInt(src.lo), ("int",))
+        li.check(p, "entry")
+        names = sorted(set(assigned_names(st.body)) - set(_target_names(st.target)))
+        li.havoc(p, names)
+        p.note(f"{li.where}: summarised by the sidecar invariant")
+        K = ctx.new("k_loop", smt.IntS)
+        # ---- after the loop
+        after = p.fork()
+        after.env["_k"] = Val(V.VInt(src.hi), ("int",))
+        for a in li.assume(after):
+            a.env.pop("_k", None)
+            for n in _target_names(st.target):
+                if n not in path.env:
+                    a.env.pop(n, None)
+            out.append((a, Outcome("fall")))
+        # ---- one arbitrary iteration
+        it0 = p.fork()
+        it0.assume(z3.And(src.lo <= K, K < src.hi), "arbitrary iteration index")
+        if not ctx.feasible(it0):
+            continue
+        it0.env["_k"] = Val(V.VInt(K), ("int",))
+        for it in li.assume(it0):
+            snap = li.snapshot(it)
+            el = src.elem(it, K)
+            for q in assign_to(ctx, fr, it, st.target, el):
+                for r, o in exec_block(ctx, fr, q, st.body):
+                    li.check_frame(snap, r)
+                    if o.kind in ("fall", "continue"):
+                        r.env["_k"] = Val(V.VInt(simp(K + 1)), ("int",))
+                        li.check(r, "preserved")
+                    elif o.kind == "break":
+                        raise Unsupported(f"break inside a loop with an invariant ({li.where})")
+                    else:
+                        r.env.pop("_k", None)
+                        out.append((r, o))
+    return out
 
 
 def s_FunctionDef(ctx, fr, path, st):
